@@ -263,7 +263,10 @@ CLAIMED = {
         'out_structure_honest, application_defined, sizes_agree, block_sizes, promoted_dtype_is_join, '
         'out_structure_honest_dtypes, declared_is_evaluated, composite_structs, transpose_structs, exec_leaf_honest/defined: '
         'all obligations (count in the evidence file) closed under the global context (incl. the shape model of the diagonal constructors: diagonal_ctor_honest). Tie: C-tie on every class x layouts x data dtype {f32,f64,i32,mixed} '
-        'x parameter dtype x x64 on/off: out_structure() vs eval_shape vs actual mv(x) vs model (1336 quick / 5460 thorough).',
+        'x parameter dtype x x64 on/off: out_structure() vs eval_shape vs actual mv(x) vs model (1336 quick / 5460 thorough); axis operators '
+        '(ravel, reshape, move-axis, index, diagonal, pack) on pytrees whose leaves have DIFFERENT ranks, both leaf orders, alone / reduced / in 18 contexts, '
+        'compared with Model/Axes.v and NumPy per leaf (axes_reduce_keeps_structures, axes_reduce_identity_needs_all_leaves); T-tie Props/Tables.v '
+        '(which classes override out_structure / in_structure / reduce / transpose / inverse).',
         'The structures of REDUCED and INVERTED operators are proved in Props/C01Structs.v (reduce_structs) and '
         'Props/C06Structs.v (inverse_structs), compiled by the C01 / C06 checks, and compared here on the real objects. Default-out_structure leaves carry the real declaration in the term; JAX eval_shape / '
         'result_type / linear_transpose trusted; cases outside the guards (wider parameters, dtype unavailable in the mode) '
@@ -283,7 +286,10 @@ CLAIMED = {
         'inv_inv_total: all obligations (count in the evidence file) closed under the global context. '
         'Tie: C-tie on the whole alphabet + closed-form parameter scopes (all zero masks n<=4, move-axis tuples, rotation '
         'residues, nested block containers): skeleton/identities of op.I and op.I.I, structures, dense matrices, refusal kind; '
-        'T-tie Props/Tables.v (method resolution of inverse).',
+        'T-tie Props/Tables.v (method resolution of inverse). Oracle-only classes (no model comparison): cg-seq (sequences of differently '
+        'configured lazy inverses passed as ARGUMENTS of one jitted function: every static config field must separate jit cache entries and '
+        'each call must meet ITS tolerance), cg-solvers (every lineax solver class with and without max_steps under furax\'s DEFAULT callback), '
+        'mixed-* (closed-form inverses under x64 on/off x parameter dtype x data dtype with parameters up to 1e6).',
         'Partial: "A.I(y) solves A z = y to the solver tolerance" is a floating-point convergence statement about lineax CG: '
         'tested on 132 (quick) SPD systems with three solver settings, not proved. Algebra.inverse of the shared core is not recursive on nested '
         'block-diagonals; C06 uses inverse_r with an agreement lemma.',
